@@ -1,7 +1,12 @@
 (* C16.v — Merge, Extract and Concatenate obey their documented laws and are pure
    Statements only: every theorem is closed by [exact] of a lemma proved elsewhere, and its
-   axioms are printed.  Generated once by tools/mkprop.py from the proved lemmas' statements. *)
-From Verif Require Import Base Seq Coll AssocProofs.
+   axioms are printed.  Generated once by tools/mkprop.py from the proved lemmas' statements. 
+   Round 2 (polish): an [Example] of non-vacuity beside the theorems with hypotheses (data in AssocProofs2.v);
+   from C16_go_key_equality_is_symmetric on: the exact key order of Extract for arbitrary request sequences
+   (absent and repeated keys), the laws without hypotheses on "==" for the keys of the pool, the class functions
+   of the pool machine (new object computed from the operands, also when aliased) and their purity. *)
+From Verif Require Import Base Sorter SorterProofs Value Seq Coll Pool PoolFrame AssocProofs SorterProofs2 AssocProofs2.
+Local Open Scope nat_scope.
 
 Theorem C16_merge_key_order :
   forall (K V : Type) (keq : K -> K -> bool),
@@ -18,6 +23,15 @@ Theorem C16_merge_key_order :
                               end) (keys K V b).
 Proof. exact a_merge_keys. Qed.
 
+(* non-vacuity: Merge(a:1 b:2 c:3, c:30 d:4 a:10): a's keys in a's order, then b's new key d; shared keys a, c take
+   the second catalog's values; the same catalog passed twice gives itself *)
+Example C16_merge_key_order_example :
+  wfm val val keq ex_cat /\ wfm val val keq ex_cat2 /\
+  a_merge keq ex_cat ex_cat2 = [(ka, iv 10); (kb, iv 2); (kc, iv 30); (kd, iv 4)] /\
+  keys val val (a_merge keq ex_cat ex_cat2) = [ka; kb; kc; kd] /\
+  a_merge keq ex_cat ex_cat = ex_cat.
+Proof. split; [exact (distinctb_ok val val keq ex_cat eq_refl)|]. split; [exact (distinctb_ok val val keq ex_cat2 eq_refl)|]. repeat split; vm_compute; reflexivity. Qed.
+
 Theorem C16_merge_second_wins :
   forall (K V : Type) (keq : K -> K -> bool),
          (forall a b : K, keq a b = keq b a) ->
@@ -30,11 +44,20 @@ Theorem C16_merge_second_wins :
          end.
 Proof. exact a_merge_get. Qed.
 
+Example C16_merge_second_wins_example :
+  a_get keq (a_merge keq ex_cat ex_cat2) ka = Some (iv 10) /\ a_get keq (a_merge keq ex_cat ex_cat2) kb = Some (iv 2) /\
+  a_get keq (a_merge keq ex_cat ex_cat2) kd = Some (iv 4) /\ a_get keq (a_merge keq ex_cat ex_cat2) (ks [122]%Z) = None.
+Proof. repeat split; vm_compute; reflexivity. Qed.
+
 Theorem C16_merge_distinct :
   forall (K V : Type) (keq : K -> K -> bool),
          (forall a b : K, keq a b = keq b a) ->
          forall a b : list (K * V), wfm K V keq (a_merge keq a b).
 Proof. exact a_merge_wf. Qed.
+
+Example C16_merge_distinct_example :
+  (forall a b : val, keq a b = keq b a) /\ wfm val val keq (a_merge keq ex_cat ex_cat2) /\ wfm val val keq (a_merge keq ex_cat ex_cat).
+Proof. split; [exact keq_sym|]. split; apply (C16_merge_distinct val val keq keq_sym). Qed.
 
 Theorem C16_extract_only_requested_and_present :
   forall (K V : Type) (keq : K -> K -> bool),
@@ -45,11 +68,122 @@ Theorem C16_extract_only_requested_and_present :
          a_get keq (a_extract keq c ks) x = (if existsb (keq x) ks then a_get keq c x else None).
 Proof. exact a_extract_get. Qed.
 
+(* non-vacuity: Extract(a:1 b:2 c:3, [c, z, a, c]) — an absent key z (nothing for it) and a repeated key c (once) —
+   and a request for a key holding the zero value *)
+Example C16_extract_only_requested_and_present_example :
+  wfm val val keq ex_cat /\
+  a_extract keq ex_cat ex_req = [(kc, iv 3); (ka, iv 1)] /\
+  a_get keq (a_extract keq ex_cat ex_req) (ks [122]%Z) = None /\ a_get keq (a_extract keq ex_cat ex_req) kb = None /\
+  a_extract keq [(ka, iv 0); (kb, iv 2)] [ka] = [(ka, iv 0)].
+Proof. split; [exact (distinctb_ok val val keq ex_cat eq_refl)|]. repeat split; vm_compute; reflexivity. Qed.
+
 Theorem C16_extract_distinct :
   forall (K V : Type) (keq : K -> K -> bool),
          (forall a b : K, keq a b = keq b a) ->
          forall (c : list (K * V)) (ks : list K), wfm K V keq (a_extract keq c ks).
 Proof. exact a_extract_wf. Qed.
+
+Example C16_extract_distinct_example :
+  (forall a b : val, keq a b = keq b a) /\ wfm val val keq (a_extract keq ex_cat ex_req).
+Proof. split; [exact keq_sym|]. apply (C16_extract_distinct val val keq keq_sym). Qed.
+
+Theorem C16_go_key_equality_is_symmetric :
+  forall a b : val, keq a b = keq b a.
+Proof. exact keq_sym. Qed.
+
+Theorem C16_go_key_equality_is_transitive :
+  forall a b c : val, keq a b = true -> keq b c = true -> keq a c = true.
+Proof. exact keq_trans. Qed.
+
+Theorem C16_extract_key_order :
+  forall (K V : Type) (keq : K -> K -> bool) (c : list (K * V)) (ks : list K),
+         keys K V (a_extract keq c ks) = newkeys K V keq c ks [].
+Proof. exact a_extract_keys. Qed.
+
+Example C16_extract_key_order_example :
+  keys val val (a_extract keq ex_cat ex_req) = [kc; ka] /\ newkeys val val keq ex_cat ex_req [] = [kc; ka].
+Proof. split; vm_compute; reflexivity. Qed.
+
+Theorem C16_pool_keys_merge_key_order :
+  forall a b : list (val * val),
+         wfm val val keq a ->
+         wfm val val keq b ->
+         keys val val (a_merge keq a b) =
+         keys val val a ++
+         filter (fun k : val => match a_get keq a k with
+                                | Some _ => false
+                                | None => true
+                                end) (keys val val b).
+Proof. exact val_merge_key_order. Qed.
+
+Theorem C16_pool_keys_merge_second_wins :
+  forall (a b : list (val * val)) (x : val),
+         a_get keq (a_merge keq a b) x =
+         match a_get keq (rev b) x with
+         | Some v => Some v
+         | None => a_get keq (rev a) x
+         end.
+Proof. exact val_merge_second_wins. Qed.
+
+Theorem C16_pool_keys_extract_lookup :
+  forall (c : list (val * val)) (ks : list val) (x : val),
+         wfm val val keq c ->
+         a_get keq (a_extract keq c ks) x = (if existsb (keq x) ks then a_get keq c x else None).
+Proof. exact val_extract_lookup. Qed.
+
+Theorem C16_pool_class_functions_results :
+  forall (zero : val) (p : pool) (a b : nat),
+         (forall x y : list val,
+          get p a = OLst x ->
+          get p b = OLst y -> step zero p (Concat a b) = (p ++ [OLst (x ++ y)], RNew)) /\
+         (forall x y : list (val * val),
+          get p a = OCat x ->
+          get p b = OCat y -> step zero p (Merge a b) = (p ++ [OCat (a_merge keq x y)], RNew)) /\
+         (forall (m : list (val * val)) (ks : list val),
+          get p a = OCat m ->
+          seq_plain (get p b) = Some ks ->
+          step zero p (Extract a b) = (p ++ [OCat (a_extract keq m ks)], RNew)).
+Proof. exact pool_class_functions. Qed.
+
+(* non-vacuity at pool level: Concatenate of a list with itself, Merge of a catalog with itself and with another,
+   Extract with absent and repeated keys; then an operand is changed: the results stay *)
+Example C16_pool_example :
+  writes (Concat 0 0) = None /\ writes (Merge 1 2) = None /\ writes (Extract 1 3) = None /\
+  run (iv 0) [OLst [iv 1; iv 2]; OCat ex_cat; OCat ex_cat2; OLst ex_req]
+      [Concat 0 0; Merge 1 2; Merge 1 1; Extract 1 3; AppendValue 0 (iv 9); Pool.ASet 1 ka (iv 77)] =
+    [OLst [iv 1; iv 2; iv 9]; OCat [(ka, iv 77); (kb, iv 2); (kc, iv 3)]; OCat ex_cat2; OLst ex_req;
+     OLst [iv 1; iv 2; iv 1; iv 2];
+     OCat [(ka, iv 10); (kb, iv 2); (kc, iv 30); (kd, iv 4)];
+     OCat ex_cat;
+     OCat [(kc, iv 3); (ka, iv 1)]].
+Proof. repeat split; vm_compute; reflexivity. Qed.
+
+Theorem C16_class_functions_leave_operands_unchanged :
+  forall (zero : val) (p : pool) (o : op) (p' : pool) (r : ret),
+         writes o = None ->
+         step zero p o = (p', r) -> forall i : nat, i < length p -> nth i p' ODead = nth i p ODead.
+Proof. exact no_receiver_changes_nothing. Qed.
+
+Theorem C16_later_changes_to_an_operand_do_not_reach_the_result :
+  forall (zero : val) (p : pool) (o : op) (p' : pool) (r : ret) (ops : list op) (src : nat),
+         step zero p o = (p', r) ->
+         r = RNew ->
+         writes o <> Some src ->
+         src < length p ->
+         (forall o' : op, In o' ops -> writes o' = Some src \/ writes o' = None) ->
+         src <> length p' - 1 ->
+         nth (length p' - 1) (run zero p' ops) ODead = nth (length p' - 1) p' ODead.
+Proof. exact product_independent_of_source. Qed.
+
+Theorem C16_later_changes_to_the_result_do_not_reach_an_operand :
+  forall (zero : val) (p : pool) (o : op) (p' : pool) (r : ret) (ops : list op) (src : nat),
+         step zero p o = (p', r) ->
+         r = RNew ->
+         writes o <> Some src ->
+         src < length p ->
+         (forall o' : op, In o' ops -> writes o' = Some (length p' - 1) \/ writes o' = None) ->
+         src <> length p' - 1 -> nth src (run zero p' ops) ODead = nth src p ODead.
+Proof. exact source_independent_of_product. Qed.
 
 
 Print Assumptions C16_merge_key_order.
@@ -57,3 +191,13 @@ Print Assumptions C16_merge_second_wins.
 Print Assumptions C16_merge_distinct.
 Print Assumptions C16_extract_only_requested_and_present.
 Print Assumptions C16_extract_distinct.
+Print Assumptions C16_go_key_equality_is_symmetric.
+Print Assumptions C16_go_key_equality_is_transitive.
+Print Assumptions C16_extract_key_order.
+Print Assumptions C16_pool_keys_merge_key_order.
+Print Assumptions C16_pool_keys_merge_second_wins.
+Print Assumptions C16_pool_keys_extract_lookup.
+Print Assumptions C16_pool_class_functions_results.
+Print Assumptions C16_class_functions_leave_operands_unchanged.
+Print Assumptions C16_later_changes_to_an_operand_do_not_reach_the_result.
+Print Assumptions C16_later_changes_to_the_result_do_not_reach_an_operand.
